@@ -153,6 +153,10 @@ class GateOperation:
                 f"vector of length {len(amplitude_vector)} was provided."
             )
 
+        if isinstance(amplitude_vector, (list, tuple)):
+            # sympy matrices cannot be multiplied with plain Python sequences
+            amplitude_vector = np.asarray(amplitude_vector)
+
         return self.lifted_matrix(int(num_qubits)) @ amplitude_vector
 
     @property
